@@ -626,7 +626,123 @@ type rookOp struct {
 	Pos      token.Pos
 }
 
-// rookOps extracts add/removePiece(.., Rook, const sq) calls guarded by m.From()==c1 && m.To()==c2.
+// arrayLitElems: v is a load of a local array whose elements were stored once each at constant indices.
+func arrayLitElems(v ssa.Value) []ssa.Value {
+	l, ok := stripConv(v).(*ssa.UnOp)
+	if !ok || l.Op != token.MUL {
+		return nil
+	}
+	al, ok := l.X.(*ssa.Alloc)
+	if !ok || al.Referrers() == nil {
+		return nil
+	}
+	at, ok := al.Type().Underlying().(*types.Pointer).Elem().Underlying().(*types.Array)
+	if !ok || at.Len() > 8 {
+		return nil
+	}
+	out := make([]ssa.Value, at.Len())
+	for _, r := range *al.Referrers() {
+		ia, ok := r.(*ssa.IndexAddr)
+		if !ok || ia.Referrers() == nil {
+			continue
+		}
+		k, isc := constOf(ia.Index)
+		if !isc || k < 0 || k >= at.Len() {
+			return nil
+		}
+		for _, rr := range *ia.Referrers() {
+			if st, ok := rr.(*ssa.Store); ok && st.Addr == ssa.Value(ia) {
+				if out[k] != nil {
+					return nil
+				}
+				out[k] = st.Val
+			}
+		}
+	}
+	for _, e := range out {
+		if e == nil {
+			return nil
+		}
+	}
+	return out
+}
+
+// fromToOfConds reads (from, to) constants out of the conditions that govern a block:
+// `m.From() == c1`, `m.To() == c2`, or the array form `[2]Square{from, to} == [2]Square{c1, c2}`.
+func fromToOfConds(b *ssa.BasicBlock) (from, to int64) {
+	from, to = -1, -1
+	isFrom := func(v ssa.Value) bool { return isCallValueTo(stripConv(v), "move.(Move).From") }
+	isTo := func(v ssa.Value) bool { return isCallValueTo(stripConv(v), "move.(Move).To") }
+	for _, ce := range controllingConds(b) {
+		bo, ok := ce.Cond.(*ssa.BinOp)
+		if !ok || !ce.True || bo.Op != token.EQL {
+			continue
+		}
+		if v, isc := constOf(bo.Y); isc {
+			if isFrom(bo.X) {
+				from = v
+			}
+			if isTo(bo.X) {
+				to = v
+			}
+			continue
+		}
+		for _, pr := range [][2]ssa.Value{{bo.X, bo.Y}, {bo.Y, bo.X}} {
+			vars, consts := arrayLitElems(pr[0]), arrayLitElems(pr[1])
+			if len(vars) != 2 || len(consts) != 2 {
+				continue
+			}
+			for i := range vars {
+				k, isc := constOf(consts[i])
+				if !isc {
+					continue
+				}
+				if isFrom(vars[i]) {
+					from = k
+				}
+				if isTo(vars[i]) {
+					to = k
+				}
+			}
+		}
+	}
+	return
+}
+
+// helperRows: for a helper H(m) returning constant squares under (from,to) conditions,
+// the table of its returns: row = (from, to, constant results by index; -1 where not constant).
+type helperRow struct {
+	From, To int64
+	Vals     []int64
+}
+
+func helperRows(h *ssa.Function) []helperRow {
+	var rows []helperRow
+	allInstrs(h, func(in ssa.Instruction) {
+		ret, ok := in.(*ssa.Return)
+		if !ok {
+			return
+		}
+		f, t := fromToOfConds(ret.Block())
+		if f < 0 || t < 0 {
+			return
+		}
+		row := helperRow{From: f, To: t}
+		for i := range ret.Results {
+			k, isc := constOf(returnedValue(ret, i))
+			if !isc {
+				k = -1
+			}
+			row.Vals = append(row.Vals, k)
+		}
+		rows = append(rows, row)
+	})
+	return rows
+}
+
+// rookOps extracts the rook relocations of a make/undo function: add/removePiece(.., Rook, sq)
+// where sq is a constant under (from,to) conditions, or a result of a helper whose returns are
+// constant under (from,to) conditions (the helper's table is expanded).
 func rookOps(fn *ssa.Function, rookConst int64) []rookOp {
 	var out []rookOp
 	for _, spec := range []string{"board.(*Board).addPiece", "board.(*Board).removePiece"} {
@@ -636,31 +752,35 @@ func rookOps(fn *ssa.Function, rookConst int64) []rookOp {
 				continue
 			}
 			pc, ok1 := constOf(args[2])
-			sq, ok2 := constOf(args[3])
-			if !ok1 || !ok2 || pc != rookConst {
+			if !ok1 || pc != rookConst {
 				continue
 			}
-			op := rookOp{From: -1, To: -1, Op: "add", Sq: sq, Pos: ci.Pos()}
+			opName := "add"
 			if strings.HasSuffix(spec, "removePiece") {
-				op.Op = "remove"
+				opName = "remove"
 			}
-			for _, ce := range controllingConds(ci.Block()) {
-				bo, ok := ce.Cond.(*ssa.BinOp)
-				if !ok || !ce.True || bo.Op != token.EQL {
-					continue
-				}
-				v, isc := constOf(bo.Y)
-				if !isc {
-					continue
-				}
-				if isCallValueTo(stripConv(bo.X), "move.(Move).From") {
-					op.From = v
-				}
-				if isCallValueTo(stripConv(bo.X), "move.(Move).To") {
-					op.To = v
+			if sq, ok2 := constOf(args[3]); ok2 {
+				f, t := fromToOfConds(ci.Block())
+				out = append(out, rookOp{From: f, To: t, Op: opName, Sq: sq, Pos: ci.Pos()})
+				continue
+			}
+			// result of a helper
+			if ex, ok := stripConv(args[3]).(*ssa.Extract); ok {
+				if call, ok := ex.Tuple.(*ssa.Call); ok {
+					if h := call.Call.StaticCallee(); h != nil && isOwn(h) && h.Blocks != nil {
+						rows := helperRows(h)
+						for _, r := range rows {
+							if ex.Index < len(r.Vals) && r.Vals[ex.Index] >= 0 {
+								out = append(out, rookOp{From: r.From, To: r.To, Op: opName, Sq: r.Vals[ex.Index], Pos: ci.Pos()})
+							}
+						}
+						if len(rows) > 0 {
+							continue
+						}
+					}
 				}
 			}
-			out = append(out, op)
+			out = append(out, rookOp{From: -1, To: -1, Op: opName, Sq: -1, Pos: ci.Pos()})
 		}
 	}
 	return out
